@@ -509,7 +509,9 @@ func (r *Run) valueOf(st *State, fr *Frame, v ssa.Value) *Val {
 	case *ssa.Const:
 		return r.constVal(x, fr.te)
 	case *ssa.Function:
-		return &Val{T: x.Type(), L: []*Term{UF("fn!"+x.String(), SInt)}}
+		t := UF("fn!"+x.String(), SInt)
+		fnByTerm[t.String()] = x
+		return &Val{T: x.Type(), L: []*Term{t}}
 	case *ssa.Global:
 		a := &Addr{Kind: AGlobal, Base: x.Pkg.Pkg.Name() + "." + x.Name(), T: derefType(x.Type())}
 		return ptrVal(x.Type(), a)
@@ -1032,6 +1034,9 @@ func (r *Run) onPanic(st *State, fr *Frame, x *ssa.Panic) {
 }
 
 var cellCounter int
+
+// function values without captured variables are plain constants; remember which function they denote
+var fnByTerm = map[string]*ssa.Function{}
 
 // execInstr executes a non-control instruction. Returns false if the path was continued elsewhere
 // (inlined call) or ended.
